@@ -6,7 +6,7 @@ from parglare.exceptions import DisambiguationError, LoopError, RRConflicts, SRC
 from vp import corpus, pgx, refcfg
 from vp.symx import Pre, Skip, build_guard
 
-from .common import TABLES, bump, excluded_inputs, length_of, norm, norm_in, selfcheck_oracle, spec_from_params
+from .common import TABLES, bump, excluded_inputs, length_of, norm, norm_in, norm_prefix_in, selfcheck_oracle, spec_from_params
 
 INFO = {
     "level": "other",
@@ -131,7 +131,8 @@ def build(params, symbolic):
         stops = sorted(ey.accepted_at)
         if twin and stops:
             stops = stops[:-1]
-        if skip and norm_in(norm(w, n, spec.ws), skip):
+        # every extension of a listed input fails too (all sentence prefixes are reported), so listed inputs exclude by prefix
+        if skip and norm_prefix_in(norm(w, n, spec.ws), skip):
             raise Pre()
         if mode == "lr":
             if res is None:
